@@ -1,5 +1,5 @@
 (* pyasn1/type/univ.py container objects as they are (SequenceOfAndSetOfBase, SequenceAndSetBase,
-   Set, Choice) with the repairs F18b/c/e/f/g applied: the *concrete* state the code keeps and the
+   Set, Choice) at /repo HEAD (repairs F18b/c/e/f/g and the read-only encoders of d774dc2 included): the *concrete* state the code keeps and the
    public operations as step functions.  Definitions only; proofs are in Proofs/Container*.v.
 
    Element values are abstracted to INTEGER components: a slot holds a value object (CVal z), an
@@ -516,26 +516,37 @@ Definition rec_isvalue (cfg: rcfg) (s: rstate) : bool :=
               (enumerate cfg)
   end.
 
-(* components the encoder keeps: OPTIONAL without a value and DEFAULT equal to the default are left out *)
+(* SequenceEncoder._components (ber/encoder.py): an OPTIONAL or DEFAULT component is asked for with
+   getComponentByPosition(idx, default=None, instantiate=False), so the encoder leaves those slots as
+   they are; a required component is read as value[idx], which instantiates a placeholder *)
+Definition enc_read {St} (get: St -> Z -> bool -> res (St * slot)) (s: St) (from: nat) (fk: fkind)
+  : res (St * slot) :=
+  match fk with
+  | FReq => match get s (Z.of_nat from) true with Ok r => Ok r | Err e => Err (to_index e) end
+  | _ => get s (Z.of_nat from) false
+  end.
+
+(* components the encoder keeps: OPTIONAL/DEFAULT without a value and DEFAULT equal to the default are left out *)
 Definition enc_keep (fk: fkind) (c: slot) : bool :=
   match fk, c with
   | FOpt, Some (CVal _) => true
   | FOpt, _ => false
   | FDef d, Some (CVal z) => negb (Z.eqb z d)
-  | _, _ => true
+  | FDef _, _ => false
+  | FReq, _ => true
   end.
 Definition enc_slot (t: tag) (c: slot) : res bytes :=
   match c with Some (CVal z) => Ok (int_tlv t z) | _ => Err ELib end.
 
-(* SequenceEncoder: values() is a generator, so a required placeholder raises before later
-   positions are instantiated *)
+(* SequenceEncoder: the components come from a generator, so a required placeholder raises before
+   later positions are looked at *)
 Fixpoint seq_chunks {St} (get: St -> Z -> bool -> res (St * slot)) (s: St) (from: nat) (fs: list field)
          (acc: list bytes) : St * res (list bytes) :=
   match fs with
   | [] => (s, Ok (rev acc))
   | (fk, t) :: r =>
-      match get s (Z.of_nat from) true with
-      | Err e => (s, Err (to_index e))
+      match enc_read get s from fk with
+      | Err e => (s, Err e)
       | Ok (s', c) =>
           if enc_keep fk c then
             match enc_slot t c with
@@ -545,7 +556,18 @@ Fixpoint seq_chunks {St} (get: St -> Z -> bool -> res (St * slot)) (s: St) (from
           else seq_chunks get s' (S from) r acc
       end
   end.
-(* SetEncoder: all components are collected first, then sorted by tag and encoded *)
+(* SetEncoder: every component is collected first (same reads) ... *)
+Fixpoint enc_collect {St} (get: St -> Z -> bool -> res (St * slot)) (s: St) (from: nat) (fs: list field)
+         (acc: list slot) : St * res (list slot) :=
+  match fs with
+  | [] => (s, Ok (rev acc))
+  | (fk, _) :: r =>
+      match enc_read get s from fk with
+      | Err e => (s, Err e)
+      | Ok (s', c) => enc_collect get s' (S from) r (c :: acc)
+      end
+  end.
+(* ... then sorted by the tag the encoding starts with, and encoded *)
 Definition tag_leb (a b: tag) : bool := negb (tag_ltb b a).
 Fixpoint collect_errs (l: list (res bytes)) (acc: list bytes) : res (list bytes) :=
   match l with
@@ -641,7 +663,7 @@ Definition rec_step (cfg: rcfg) (isset: bool) (s: rstate) (o: rop) : rstate * ou
   | RIsValue => (s, OBool (rec_isvalue cfg s))
   | REncode =>
       if isset then
-        match gen_values (rec_get cfg) s 0 (length cfg) [] with
+        match enc_collect (rec_get cfg) s 0 cfg [] with
         | (s', Ok vals) =>
             (s', out_of_bytes (match set_chunks cfg vals with
                                | Ok cs => tlv tag_set true (concat cs) | Err e => Err e end))
